@@ -1170,6 +1170,7 @@ func checkC19(c *Check) {
 	}
 	c19NonBlocking(c)
 	c19UsablePure(c)
+	c19Configured(c)
 }
 
 // R8: the pool never waits on a bucket. A bucket channel is bounded (the idle-count limit, possibly 0); a send that
@@ -1313,4 +1314,131 @@ func c19UsablePure(c *Check) {
 	if n == 0 {
 		c.Fail("R9", "Usable", token.NoPos, "undecided: no implementation of Usable found")
 	}
+}
+
+// R10: the limits the pool enforces are the configured ones. Target.Init registers the pool's settings with the
+// configuration map (`cfg.Int64("conn_max_idle_time", …, &poolCfg.MaxConnLifetimeSec)`); they have their values only
+// after cfg.Process() ran. pool.New takes the settings by value: built before Process it keeps the defaults for good –
+// "never handed out after it exceeded its idle lifetime" then holds for 150 s, whatever the administrator wrote.
+// Decided for every variable whose address is registered with the map: it is not read before Process.
+func c19Configured(c *Check) {
+	c.Rule("R10", "remote.Target.Init: nothing registered with the configuration map (conn_max_idle_time, conn_max_idle_count, …) is read before cfg.Process() has filled it – the pool is built from the processed settings", 1)
+	r := c.need("R10", remoteRel, "Target", "Init")
+	if r == nil {
+		return
+	}
+	msg, n := configReadBeforeProcess(r)
+	if n == 0 && msg == "" {
+		msg = "undecided: no setting is registered with the configuration map"
+	}
+	c.Hold("R10", "Target.Init:processed-before-use", r.FI.Decl.Pos(), msg == "", msg)
+}
+
+// configReadBeforeProcess: in an Init(cfg *config.Map) function, a variable whose address was handed to a method of the
+// map is read at a point that can execute before the map's Process call. Returns the number of registered variables.
+func configReadBeforeProcess(r *RuleCtx) (string, int) {
+	info := r.Info
+	var cfgObj types.Object
+	sig := r.FI.Obj.Type().(*types.Signature)
+	for i := 0; i < sig.Params().Len(); i++ {
+		if pt, ok := sig.Params().At(i).Type().(*types.Pointer); ok {
+			if nt := namedOf(pt.Elem()); nt != nil && objName(nt.Obj()) == "Map" {
+				cfgObj = sig.Params().At(i)
+			}
+		}
+	}
+	if cfgObj == nil {
+		return "undecided: no configuration map parameter", 0
+	}
+	process := r.Calls(func(info *types.Info, call *ast.CallExpr) bool {
+		return (methodName(call) == "Process" || methodName(call) == "ProcessWith") && objOf(info, callRecv(call)) == cfgObj
+	})
+	if len(process) == 0 {
+		return "", 0
+	}
+	// registered roots: &x or &x.f passed to a method of the map
+	registered := map[types.Object]bool{}
+	regSites := map[ast.Node]bool{}
+	ast.Inspect(r.FI.Decl.Body, func(x ast.Node) bool {
+		call, ok := x.(*ast.CallExpr)
+		if !ok || objOf(info, callRecv(call)) != cfgObj {
+			return true
+		}
+		for _, a := range call.Args {
+			if u, isU := ast.Unparen(a).(*ast.UnaryExpr); isU && u.Op == token.AND {
+				e := ast.Unparen(u.X)
+				for {
+					if sel, isSel := e.(*ast.SelectorExpr); isSel {
+						e = ast.Unparen(sel.X)
+						continue
+					}
+					break
+				}
+				if id, isID := e.(*ast.Ident); isID {
+					if v, isVar := info.Uses[id].(*types.Var); isVar && !v.IsField() {
+						// locals only: a field of the receiver reached through the receiver is judged by its selector below
+						if v.Pos() >= r.FI.Decl.Body.Pos() && v.Pos() < r.FI.Decl.Body.End() {
+							registered[v] = true
+							regSites[u] = true
+						}
+					}
+				}
+			}
+		}
+		return true
+	})
+	if len(registered) == 0 {
+		return "", 0
+	}
+	isProcess := isPt(process)
+	msg := ""
+	for _, pt := range r.F.Points() {
+		n := pt.Node()
+		if n == nil || isProcess(pt) {
+			continue
+		}
+		// does the node read a registered variable other than by taking its address for the map?
+		reads := ""
+		var stack []ast.Node
+		ast.Inspect(n, func(x ast.Node) bool {
+			if x == nil {
+				stack = stack[:len(stack)-1]
+				return true
+			}
+			stack = append(stack, x)
+			if _, isLit := x.(*ast.FuncLit); isLit {
+				return false // closures run later
+			}
+			id, ok := x.(*ast.Ident)
+			if !ok {
+				return true
+			}
+			v, isVar := info.Uses[id].(*types.Var)
+			if !isVar || !registered[v] {
+				return true
+			}
+			// under an & that is a registration, or an assignment target (a default stored before Process)
+			for k := len(stack) - 1; k >= 0; k-- {
+				if u, isU := stack[k].(*ast.UnaryExpr); isU && u.Op == token.AND {
+					return true
+				}
+				if as, isAs := stack[k].(*ast.AssignStmt); isAs {
+					for _, l := range as.Lhs {
+						if posIn(l, id.Pos()) {
+							return true
+						}
+					}
+				}
+			}
+			reads = id.Name
+			return true
+		})
+		if reads == "" {
+			continue
+		}
+		if _, early := r.F.Reach(Query{From: r.Entry(), Inclusive: true, Target: func(q Pt) bool { return q == pt }, Avoid: isProcess}); early {
+			msg = "line " + itoa(r.Line(pt)) + ": " + reads + " is read before the configuration was processed (its address was registered with the map, the value arrives in Process): what is built from it keeps the built-in defaults – the configured idle lifetime / idle count of the pool is ignored and a connection idle longer than the configured limit is handed out"
+		}
+	}
+	return msg, len(registered)
 }
